@@ -239,6 +239,8 @@ def run(idx, rep, tier):
         for r in idx.rules[fname]:
             if r.kind == "rule" and id(r) not in winners_seen:
                 rep.note(f"dead rule (wins for no admitted tuple): {r.role} at {r.loc}")
+    if tier == "thorough":
+        differential(idx, rep, intr)
     rep.exhaustive = True
     rep.explanation = ("Exhaustive enumeration of (function, operator kind(s), annotation set, algorithm class, arity, "
                        "configuration) over the dispatch-rule table extracted from the decorators of /repo/cola; each tuple is resolved "
@@ -251,3 +253,53 @@ def run(idx, rep, tier):
         "argument kinds per function from sa/oracle_domains.py (documented domain) plus the types each rule documents itself",
     ]
     rep.assumptions.append("errors raised inside the selected rule are outside the property")
+
+
+def differential(idx, rep, intr):
+    """thorough tier only: model vs live plum registry on the quick lattice (validation of the trusted base;
+    it imports cola in a subprocess and never decides the property)"""
+    import json
+    import os
+    import subprocess
+    import sys
+    confs = configurations(idx, "quick")
+    total = mismatches = 0
+    details = []
+    for cname, mods in confs:
+        res = Resolver(idx, mods)
+        kinds = op_kinds(idx, mods)
+        tuples, expect = [], []
+        for fname in sorted(f for f, rs in idx.rules.items() if any(r.kind == "rule" for r in rs)):
+            if not res.rules_of(fname):
+                continue
+            for tup, origin in enumerate_function(fname, res, idx, kinds, intr, "quick"):
+                for free, (st, win, cands, matching) in res.resolve_all(fname, tup):
+                    vals = set(free.values())
+                    if len(vals) > 1:
+                        continue
+                    ft = True if not vals else next(iter(vals))
+                    tuples.append({"f": fname, "args": [[a.cls, sorted(a.annots)] for a in tup], "free": ft})
+                    if st == "OK":
+                        r = win[0][0]
+                        line = min([d.lineno for d in r.node.decorator_list] + [r.node.lineno])
+                        expect.append(("OK", os.path.join(idx.root, r.module.rel), line))
+                    else:
+                        expect.append((st, None, None))
+        extra = [m for m in sorted(mods) if m not in idx.core_modules() and any(r.module.name == m for rs in idx.rules.values() for r in rs)]
+        env = dict(os.environ, PYTHONPATH=idx.root + os.pathsep + os.path.dirname(os.path.dirname(os.path.abspath(__file__))))
+        p = subprocess.run([sys.executable, "-W", "ignore", "-m", "sa.livediff"], input=json.dumps({"tuples": tuples, "extra_modules": extra}), capture_output=True, text=True,
+                           env=env, cwd=idx.root, timeout=600)
+        if p.returncode != 0:
+            rep.incomplete.append(f"differential test could not run in configuration {cname}: {p.stderr[-300:]}")
+            continue
+        live = json.loads(p.stdout)
+        for t, e, l in zip(tuples, expect, live):
+            total += 1
+            same = e[0] == l["st"] and (e[0] != "OK" or (os.path.realpath(e[1]) == os.path.realpath(l["file"]) and e[2] == l["line"]))
+            if not same:
+                mismatches += 1
+                if len(details) < 5:
+                    details.append({"tuple": t, "model": list(e), "live": l})
+    rep.validation["resolver_model_vs_live_registry"] = {"tuples": total, "mismatches": mismatches, "examples": details}
+    if mismatches:
+        rep.incomplete.append(f"resolver model disagrees with the live plum registry on {mismatches} of {total} tuples (checker broken): {details[:2]}")
